@@ -661,6 +661,9 @@ def run(ctx):
     r19d(ctx)
     r19e(ctx)
     r19f(ctx)
+    # "a range bounds the result on both sides": the expanding traversals decide which columns/cells a range returns (rule shared with C08)
+    from .c08 import r08c
+    r08c(ctx)
 
 
 from ..selftest import Seed, unparse_seed  # noqa: E402
